@@ -32,6 +32,7 @@ type runConfig struct {
 	debugHostPanics       bool
 	curJob                *job
 	verbose               bool
+	noIfConv              bool
 }
 
 func defaultConfig(tier string) *runConfig {
